@@ -223,6 +223,23 @@ def u_init_nocfg(E):
             E.prove('IpmParamReader.__init__/table-%s-without-configuration-refused' % tid, z3.BoolVal(E.exc_is(pr.exc, M + 'MciIpmDataError')), 'P', 'xpost')
 
 
+def reader_fields(E, rd):
+    """every field of the reader object except the ghost position of the VBS layer"""
+    return {k: v for k, v in E.cell(rd).items() if not k.startswith('__') and k != '_g_idx'}
+
+
+def prove_reader_frame(E, tag, rd, before):
+    """__next__ changes nothing of the reader but its position in the file: the contract proved from an arbitrary position
+    therefore holds for every later call too (a flag or cache set by one call would break exactly this).  A proof device,
+    not a clause of the property (a harmless statistics counter would also trip it): I-tier, the stand-in decides"""
+    after = reader_fields(E, rd)
+    for k in sorted(set(before) | set(after)):
+        if k not in before or k not in after:
+            E.prove('%s/reader-state-besides-position-unchanged/%s' % (tag, k), False, 'I', 'frame')
+        else:
+            E.prove('%s/reader-state-besides-position-unchanged/%s' % (tag, k), z3.BoolVal(after[k] is before[k]), 'I', 'frame')
+
+
 # ---------------------------------------------------------------- __next__: rows of the requested table, exact columns
 class NextLoop:
     """`while True` in IpmParamReader.__next__: ghost j = next record; q = an arbitrary skipped record (skolem)"""
@@ -297,6 +314,7 @@ def mk_next(expanded, generated):
         E.loop_specs[(M + 'IpmParamReader.__next__', 0)] = NextLoop({'j0': j0, 'nrecs': nrecs, 'q': q, 'match': table_of})
         tag = 'IpmParamReader.__next__[%s,%s]' % ('expanded' if expanded else 'compressed', 'generated' if generated else 'IP0006T1')
         E.native_input({'kind': 'param-next', 'expanded': expanded})
+        before = reader_fields(E, rd)
         try:
             out = E.method(rd, '__next__')
         except PyRaise as pr:
@@ -308,6 +326,7 @@ def mk_next(expanded, generated):
             return
         j = E.as_int(E.getf(rd, '_g_idx')) - 1          # the record that was returned
         r = rec(E, j)
+        prove_reader_frame(E, tag, rd, before)
         E.prove(tag + '/returned-row-belongs-to-the-requested-table', table_of(j), 'P')
         E.prove(tag + '/rows-in-file-order-none-skipped', z3.Implies(z3.And(q >= j0, q < j), z3.Not(table_of(q))), 'P')
         dv = E.getf(out, 'val')
@@ -395,6 +414,7 @@ def u_next_any_index(E):
     E.loop_specs[(M + 'IpmParamReader.__next__', 0)] = Loop({'j0': j0, 'nrecs': nrecs, 'q': q, 'match': belongs})
     tag = 'IpmParamReader.__next__[compressed, any index]'
     E.native_input({'kind': 'param-next', 'expanded': False})
+    before = reader_fields(E, rd)
     try:
         out = E.method(rd, '__next__')
     except PyRaise as pr:
@@ -405,6 +425,7 @@ def u_next_any_index(E):
         return
     j = E.as_int(E.getf(rd, '_g_idx')) - 1
     r = rec(E, j)
+    prove_reader_frame(E, tag, rd, before)
     E.prove(tag + '/returned-row-belongs-to-the-requested-table', belongs(j), 'P')
     E.prove(tag + '/rows-in-file-order-none-skipped', z3.Implies(z3.And(q >= j0, q < j), z3.Not(belongs(q))), 'P')
     dv = E.getf(out, 'val')
